@@ -169,6 +169,38 @@ def check_tree(U, d, rec: Rec, cfg):
             rec.violation("C02|hash", {"tree": d, "origins_a": list(combo)}, "hash(node) changed during the node's lifetime")
 
 
+_SAME_NAME_SRC = """
+from dataclasses import dataclass
+from typing import Any
+from pyoak.node import ASTNode
+
+@dataclass(frozen=True)
+class SameName(ASTNode):
+    v: Any = 0
+    kid: ASTNode | None = None
+"""
+
+
+def check_same_name(rec: Rec):
+    """Two DIFFERENT node classes that share one __name__ and field layout (a model factory called twice, a class redefined in a
+    notebook): comparing a node with a node of another class is False, whatever the names."""
+    import warnings
+
+    with warnings.catch_warnings():
+        warnings.simplefilter("ignore")
+        ns1, ns2 = {}, {}
+        exec(compile(_SAME_NAME_SRC, "<c02-same-name-1>", "exec", dont_inherit=True), ns1)
+        exec(compile(_SAME_NAME_SRC, "<c02-same-name-2>", "exec", dont_inherit=True), ns2)
+    A, B = ns1["SameName"], ns2["SameName"]
+    zoo.reset_registry()
+    builders = {"leaf": lambda K: K(1), "with-child": lambda K: K(2, zoo.ZL()), "as-child": lambda K: zoo.ZU(K(3)), "nested-same": lambda K: K(4, K(5))}
+    for name, mk in builders.items():
+        rec.count("states")
+        a, b, a2 = mk(A), mk(B), mk(A)
+        compare(rec, a, a2, True, {"same_name": True, "shape": name, "classes": "one class"}, f"same-name-classes:{name}")
+        compare(rec, a, b, False, {"same_name": True, "shape": name, "classes": "two classes, one name"}, f"same-name-classes:{name}")
+
+
 def check_shared_children(U, d, rec: Rec):
     """Operands that SHARE child objects: b is a with the subtree at one position rebuilt (its root carrying another origin,
     or the same one) and only the ancestors of that position re-created with dataclasses.replace - every other child, at
@@ -330,6 +362,8 @@ def run_shard(cfg):
     check_values(rec, cfg)
     if cfg["k"] == 5 % cfg["of"]:
         check_deep(rec)
+    if cfg["k"] == 6 % cfg["of"]:
+        check_same_name(rec)
     rec.bound = {"max_nodes": cfg["n"], "pairs_and_triples_up_to_nodes": cfg["npair"]}
     return rec.result()
 
@@ -339,7 +373,9 @@ def replay(case, cfg):
     U = zoo.universe(UNIV)
     cfg = dict(cfg)
     cfg.setdefault("npair", 3)
-    if case.get("shared_children"):
+    if case.get("same_name"):
+        check_same_name(rec)
+    elif case.get("shared_children"):
         check_shared_children(U, case["tree"], rec)
     elif case.get("deep_chain"):
         check_deep(rec)
